@@ -23,6 +23,7 @@ ASSUMPTIONS = [
     "the consequence clause is checked only for strategies running with acknowledgement discipline and for the per-selection limit, as the property states",
     "boundary-seeking placements: in 45% of the non-float-exact scenarios a third of the LIMIT placements are sized at run time (from the oracle's own position calculator) to land 0.2 p outside / inside the band around max_selection_exposure in which either verdict is accepted",
     "a quarter of the scenarios run under a foreign host time zone (scenario key tz)",
+    "a third of the ordinary two-market scenarios take a second decision on a market whose book has not changed since the first one: a placement on market 0 from its own callback and another on the same selection from the callback of the next update of market 1 (before market 0 is updated again), place latency 0 so that the first order is acknowledged in between, each placement 60% of the per-selection limit",
 ]
 COMPONENTS = common.COMPONENTS_A
 MONITORS = [LedgerMonitor, ExposureMonitor]
@@ -97,6 +98,38 @@ def generate(rng, i, tier):
                     for acts in (u.get(key) or {}).values():
                         mark(acts)
         sc["boundary_seeking"] = True
+    if not line and not dyadic and len(sc["markets"]) >= 2 and rng.random() < 0.35:
+        # (round 22, C01-m) a second decision on a market whose book has NOT changed since the first one, after the position
+        # changed: the strategy places on market 0 from market 0's callback and again - same selection - from the callback
+        # of the next update of market 1, which falls before market 0's next update; the place latency is zero, so the first
+        # order is acknowledged (and counts) when the second decision is taken. Each placement is 60 % of the limit.
+        s0 = sc["strategies"][0]
+        m0, m1 = sc["markets"][0], sc["markets"][1]
+        u0s, u1s = m0["updates"], m1["updates"]
+        pairs = []
+        for k in range(1, len(u0s) - 1):
+            if u0s[k]["st"] != "OPEN" or u0s[k].get("ip"):
+                continue
+            for q in range(1, len(u1s)):
+                if u0s[k]["pt"] < u1s[q]["pt"] < u0s[k + 1]["pt"] and u1s[q]["st"] == "OPEN":
+                    pairs.append((k, q))
+                    break
+        if pairs and 0 in s0["markets"] and 1 in s0["markets"]:
+            k, q = rng.choice(pairs)
+            lim_ = s0.get("max_selection_exposure")
+            if not lim_ or lim_ > 900:
+                lim_ = s0["max_selection_exposure"] = rng.choice([4.0, 7.5])
+            size = round(lim_ * 0.6, 2)
+            if s0.get("max_order_exposure") is not None and s0["max_order_exposure"] < size:
+                s0["max_order_exposure"] = None
+            s0["max_market_exposure"] = None
+            s0["max_live_trade_count"] = max(5, s0.get("max_live_trade_count") or 5)
+            sel = rng.choice(m0["runners"])
+            act = {"op": "place", "sel": sel, "side": "BACK", "type": "LIMIT", "price": 900.0, "size": size, "persistence": "LAPSE"}
+            u0s[k].setdefault("acts", {})[s0["name"]] = [dict(act)]
+            u1s[q].setdefault("acts", {})[s0["name"]] = [dict(act, mkt=0)]
+            sc["cfg"]["place_latency"] = 0.0
+            sc["second_decision_on_an_unchanged_book"] = True
     if line:
         for m in sc["markets"]:
             lo, hi, step = m["line"]
